@@ -10,6 +10,13 @@ Tie:    declaration route (scalar / vector / matrix, slices, rows, columns, sub-
         open / infinite / huge / non-integral intervals × on a non-continuous variable, on all of them, on an unrelated
         continuous variable, on every variable × declared / assigned after modelling / assigned between two solves and
         restored (branch-and-bound style) × route × method × strict × call site.
+        + HISTORIES IN WHICH THE SET OF NON-CONTINUOUS VARIABLES CHANGES AFTER THE FIRST SOLVE (`growth_cases`,
+        `growth_real_cases`): a purely continuous model (or one that already has some) is solved — any method, strict or
+        not —, then integer / binary variables of every declaration route enter through the ordinary API (subject_to: one
+        constraint / a list / a vectorised comparison / bare-leaf constraints / a non-linear one; a re-declared objective;
+        both; a `domain` assigned to a variable the problem already has) or leave again (objective re-declared without
+        them, domain set back), read-only helpers interleaved, and every method × strict × call site is used afterwards;
+        the expected set is the harness's own record of what it wrote into the model.
 Oracle: independent of the model — strict ⇒ an exception is raised (IntegerVariableError listing exactly the
         non-continuous variables; NonLinearError when an LP method is forced on a nonlinear problem) and no
         solver call happened; non-strict ⇒ every solver call is preceded by a warning naming exactly those
@@ -692,6 +699,485 @@ def bounds_guard_cases(rep, rng, recs, thorough, with_model=True, first_only=Fal
                                      meta["strict"], meta["call"], meta["step"], meta["recipe"], meta["kind"])))
 
 
+# ----------------------------------------------------------------------------- the SET of non-continuous variables changes
+# AFTER the first solve.  The guard is about the model AT THE MOMENT OF THE CALL: a Problem that was solved while it was
+# purely continuous (any method, strict or not) and is then extended through the ordinary API — subject_to (one
+# constraint, a list, a vectorised comparison, bare-leaf constraints, a non-linear one), a re-declared objective
+# (minimize / maximize), both, or a `domain` assigned to a variable it already has — with integer / binary variables of
+# every declaration route (scalar, vector, matrix, views) must raise under strict=True naming ALL of them and warn naming
+# ALL of them otherwise, for every method incl. the LP methods and every call site; a Problem that already had some at
+# its first solve must name the old AND the new ones; and the reverse: once the objective is re-declared without them
+# (or their domain is set back) nothing may warn or raise any more.  Read-only helpers are interleaved.
+# The expected set is NOT read from optyx: the harness keeps its own record of the Variable objects it wrote into the
+# objective and the constraints (`_Growing.user_names`).
+
+GROW_STARTS = ["lin", "lin+c", "nl", "nl+c", "nl-max", "lin-max"]
+GROW_VIAS = ["subject_to", "subject_to-list", "bare", "minimize", "maximize", "objective+constraint", "subject_to-nl", "domain"]
+GROW_SHAPES = ["grow", "grow-on-discrete", "shrink", "shrink-grow", "grow"]
+GROW_READS = ["summary", "repr", "str", "n_variables", "n_constraints", "variables", "get_bounds", "objective", "constraints", "sense"]
+GROW_SEEDS = [("var", "k0", 0, 10, "integer"), ("vec", "q", 2, None, None, "binary"), ("var", "z0", None, None, "binary"),
+              ("mat", "G", 2, 2, 0, 3, "integer", False)]
+GROW_DOMAIN_TARGETS = ["u", "w[1]", "w", "base"]
+
+
+def _uniq(vs):
+    out = []
+    for v in vs:
+        if all(v is not e for e in out):
+            out.append(v)
+    return out
+
+
+class _Growing:
+    """ONE Problem object + the harness's own record of what was written on it (objective / constraint variables)"""
+
+    def __init__(self, start, relax=False):
+        from optyx import Problem, Variable, VectorVariable
+
+        self.relax = relax
+        self.u = Variable("u", lb=0.0, ub=1.0)
+        self.w = VectorVariable("w", 2, lb=0.0, ub=1.0)
+        self.base = [self.u, self.w[0], self.w[1]]
+        self.obj_vars = list(self.base)
+        self.con_vars = []
+        self.lin_obj = start.startswith("lin")
+        self.maxi = start.endswith("-max")
+        self.nl_con = False
+        self.memo = {}
+        self.assigned = []
+        self.P = Problem()
+        self.declare()
+        if "+c" in start:
+            self.P.subject_to(self.u + self.w[0] <= 2.0)
+            self.con_vars += [self.u, self.w[0]]
+
+    # -- what the user wrote
+    def declare(self):
+        obj = None
+        for i, v in enumerate(self.obj_vars):
+            term = float(1 + i % 3) * v if self.lin_obj else (v - 0.25) ** 2
+            obj = term if obj is None else obj + term
+        self.P.maximize(-1.0 * obj) if self.maxi else self.P.minimize(obj)
+
+    def kind(self):
+        return "lin" if self.lin_obj and not self.nl_con else "nl"
+
+    def user_names(self):
+        """names of the non-continuous variables of the model as written (objective, then constraints)"""
+        out = []
+        for v in self.obj_vars + self.con_vars:
+            if v.domain != "continuous" and v.name not in out:
+                out.append(v.name)
+        return out
+
+    def expected(self):
+        """the user's set in the order in which the problem lists its variables (order is not this property's matter)"""
+        names = self.user_names()
+        order = [v.name for v in self.P.variables]
+        return [n for n in order if n in names] + [n for n in names if n not in order]
+
+    def handle(self, recipe):
+        h = hd.build_handle(recipe, self.memo)
+        if self.relax:
+            for obj in self.memo.values():
+                for v in hd.handle_elements(obj):
+                    v.domain = "continuous"
+                if hasattr(obj, "domain"):
+                    obj.domain = "continuous"
+        return h, _uniq(hd.handle_elements(h))
+
+    # -- the operations of a history
+    def add(self, via, recipe):
+        h, elems = self.handle(recipe)
+        P = self.P
+        if via in ("subject_to", "objective+constraint"):
+            s = 1.0 * self.u
+            for v in elems:
+                s = s + v
+            P.subject_to(s <= 64.0)
+            self.con_vars += [self.u] + elems
+        if via == "subject_to-nl":
+            s = None
+            for v in elems:
+                s = v * v if s is None else s + v * v
+            P.subject_to(s <= 4096.0)
+            self.con_vars += elems
+            self.nl_con = True
+        if via == "subject_to-list":
+            cons = None
+            if type(h).__name__ != "Variable":
+                try:
+                    cons = h >= -64.0           # the vectorised comparison of the container / view itself
+                except Exception:  # noqa: BLE001 - not every view offers it: element-wise list then
+                    cons = None
+            if not isinstance(cons, list) or not cons:
+                cons = [v >= -64.0 for v in elems]
+            P.subject_to(cons)
+            self.con_vars += elems
+        if via == "bare":
+            for v in elems:
+                P.subject_to(v >= 0)
+            self.con_vars += elems
+        if via in ("minimize", "maximize", "objective+constraint"):
+            self.obj_vars = _uniq(self.obj_vars + elems)
+            if via != "objective+constraint":
+                self.maxi = via == "maximize"
+            self.declare()
+
+    def drop(self):
+        """the objective re-declared on the continuous base variables only"""
+        self.obj_vars = list(self.base)
+        self.declare()
+
+    def targets(self, which):
+        return {"u": [self.u], "w[1]": [self.w[1]], "w": [self.w[0], self.w[1]], "base": list(self.base)}[which]
+
+    def set_domain(self, which, dom):
+        tg = self.targets(which)
+        if not self.relax:
+            for v in tg:
+                v.domain = dom
+            if which in ("w", "base") and hasattr(self.w, "domain"):
+                self.w.domain = dom
+
+    def read(self, what):
+        P = self.P
+        if what == "summary":
+            P.summary()
+        elif what == "repr":
+            repr(P)
+        elif what == "str":
+            str(P)
+        elif what == "n_variables":
+            P.n_variables
+        elif what == "n_constraints":
+            P.n_constraints
+        elif what == "variables":
+            list(P.variables)
+        elif what == "get_bounds":
+            P.get_bounds()
+        elif what == "objective":
+            repr(P.objective)
+        elif what == "constraints":
+            list(P.constraints)
+        elif what == "sense":
+            P.sense
+
+    def apply(self, stp):
+        op = stp["op"]
+        if op == "add":
+            self.add(stp["via"], _tup(stp["recipe"]))
+        elif op == "drop":
+            self.drop()
+        elif op == "domain":
+            self.set_domain(stp["target"], stp["dom"])
+        elif op == "edit":
+            self.P.subject_to(self.u <= 64.0)
+            self.con_vars.append(self.u)
+        elif op == "read":
+            self.read(stp["what"])
+
+
+def growth_history(c, upto=None, with_model=False, lines=None, echo=False):
+    """run the history of case `c` on the real code (solver seams stubbed).  Every solve is judged by `judge` against the
+    harness's own record of the non-continuous variables; the non-strict solves are also compared with the same history on
+    a twin whose domains are all continuous (while the two can still be in the same state).
+    -> list of (step meta, observed text, failure or None)"""
+    G = _Growing(c["start"])
+    T = _Growing(c["start"], relax=True)
+    res, twin_ok = [], True
+    for step, stp in enumerate(c["steps"]):
+        if upto is not None and step > upto:
+            break
+        if stp["op"] != "solve":
+            G.apply(stp)
+            T.apply(stp)
+            if echo:
+                print(f"step {step}: {stp}")
+            continue
+        P = G.P
+        m, strict, call = stp["method"], stp["strict"], stp["call"]
+        D = G.expected()
+        r1, r2 = results_for(P, c["variant"])
+        lr = base.LRes(True, 0, [0.5] * len(P.variables), 1.0, 3)
+        if with_model and lines is not None:
+            lines.append(base.model_line(call, P, m, strict, True, None, r1, r2, lr, None))
+        text, info = base.observe(P, call, m, strict, True, None, r1, r2, lr)
+        if echo:
+            print(f"step {step}: {call} method={m} strict={strict}; non-continuous variables written into the model: {D}\n    ->",
+                  text[:300])
+        meta = {k: v for k, v in c.items() if k != "steps"}
+        meta.update(steps=c["steps"], method=m, strict=strict, call=call, step=step, kind=G.kind(), recipe=c.get("recipe"))
+        bad = judge(meta, text, info, D, None)
+        if strict and D:
+            twin_ok = False
+        if twin_ok:
+            text2, _ = base.observe(T.P, call, m, False, True, None, r1, r2, lr)
+            if bad is None and D and not text.startswith("raise") and strip_warn(text) != text2:
+                bad = {"what": "solver inputs / solution differ from those of the continuous relaxation",
+                       "with_domains": strip_warn(text)[:500], "relaxed": text2[:500]}
+        if bad is not None:
+            bad.update({"kind_of_case": "growth", "case": meta,
+                        "non_continuous_variables_written_into_the_model": D,
+                        "history": "the steps of case['steps'] up to case['step'] on ONE Problem object"})
+        res.append((meta, text, bad))
+    return res
+
+
+def growth_routes(recs, per=1):
+    """one declaration route per (view kind, base kind, non-continuous domain), sane bounds (+ the plain declarations first)"""
+    plain = [("var", "s_i", 0, 10, "integer"), ("var", "s_b", None, None, "binary"), ("vec", "x", 3, 0, 10, "integer"),
+             ("vec", "x", 3, None, None, "binary"), ("mat", "A", 2, 2, 0, 10, "integer", False),
+             ("mat", "A", 2, 2, None, None, "binary", True)]
+    out = list(plain)
+    for r in bounds_guard_routes(recs, per):
+        if r not in out:
+            out.append(r)
+    return out
+
+
+def growth_case(rng, routes, via, method, strict, ci, k):
+    lp = method in LP_METHODS
+    shape = GROW_SHAPES[ci % len(GROW_SHAPES)] if via != "domain" else "domain"
+    if via == "subject_to-nl" or not lp:
+        start = GROW_STARTS[ci % len(GROW_STARTS)]
+    else:
+        start = ["lin", "lin+c", "lin-max"][ci % 3]
+    r = routes[k % len(routes)] if k < 2 * len(routes) else rng.choice(routes)   # every route at least twice, then random
+
+    def site(m):
+        if rng.random() < 0.25:
+            if m in LP_METHODS:
+                return "solve-lp", (None if m == "linprog" else m)
+            return "solve-scipy", ("SLSQP" if m == "auto" else m)
+        return "solve", m
+
+    def solve(m, s):
+        call, mm = site(m)
+        return {"op": "solve", "method": mm, "strict": s, "call": call}
+
+    def read():
+        return [{"op": "read", "what": rng.choice(GROW_READS)}] if rng.random() < 0.4 else []
+
+    def first():
+        m0 = rng.choice(SEQ_LP if start.startswith("lin") and rng.random() < 0.6 else SEQ_NLP)
+        return [solve(m0, rng.random() < 0.3)] + ([solve(rng.choice(METHODS), rng.random() < 0.5)] if rng.random() < 0.25 else [])
+
+    other = METHODS[(METHODS.index(method) + 1 + ci % 7) % len(METHODS)]
+    if via == "subject_to-nl" and lp and other in LP_METHODS:
+        other = "SLSQP"
+    post = [solve(method, strict)] + read() + [solve(other, not strict)]
+    if rng.random() < 0.5:
+        post.reverse()
+    steps = []
+    if shape == "domain":
+        dom = ["integer", "binary"][ci % 2]
+        tgt = GROW_DOMAIN_TARGETS[(ci // 2) % len(GROW_DOMAIN_TARGETS)]
+        steps += first() + read() + [{"op": "domain", "target": tgt, "dom": dom}]
+        if ci % 3 == 0:
+            steps += [{"op": "edit"}]            # an ordinary edit after the assignment (every cache is dropped)
+        steps += read() + post
+        steps += [{"op": "domain", "target": tgt, "dom": "continuous"}] + read() + [solve(rng.choice(METHODS), rng.random() < 0.5)]
+        r = None
+    elif shape == "grow":
+        steps += first() + read() + [{"op": "add", "via": via, "recipe": r}] + read() + post
+    elif shape == "grow-on-discrete":
+        seed = GROW_SEEDS[(ci // len(GROW_SHAPES)) % len(GROW_SEEDS)]
+        steps += [{"op": "add", "via": rng.choice(["minimize", "subject_to", "bare"]), "recipe": seed}]
+        steps += first() + read() + [{"op": "add", "via": via, "recipe": r}] + read() + post
+    elif shape == "shrink":
+        # the non-continuous variables enter through the objective only, are seen by a solve, and leave again
+        ovia = via if via in ("minimize", "maximize") else "minimize"
+        steps += [{"op": "add", "via": ovia, "recipe": r}] + first() + read() + [{"op": "drop"}] + read() + post
+    else:  # shrink-grow
+        steps += first() + [{"op": "add", "via": "minimize", "recipe": r}] + read() + [solve(other, rng.random() < 0.5)]
+        steps += [{"op": "drop"}] + read() + [solve(rng.choice(METHODS), rng.random() < 0.5)]
+        steps += [{"op": "add", "via": via, "recipe": r}] + read() + post
+    return {"start": start, "shape": shape, "via": via, "recipe": r, "variant": rng.randrange(3), "steps": steps}
+
+
+def growth_cases(rep, rng, recs, thorough, with_model=True, first_only=False):
+    """first solve on a purely continuous model (or one with SOME non-continuous variables) × how non-continuous variables
+    then enter / leave (8 ways) × declaration route × method × strict × call site, read-only helpers interleaved"""
+    routes = growth_routes(recs, 2 if thorough else 1)
+    lines, metas = [], []
+    ci, k = rng.randrange(60), -1
+    for rnd in range(3 if thorough else 1):
+        for via in GROW_VIAS:
+            for method in METHODS:
+                for strict in (True, False):
+                    ci, k = ci + 1, k + 1
+                    c = growth_case(rng, routes, via, method, strict, ci, k)
+                    for meta, text, bad in growth_history(c, with_model=with_model, lines=lines):
+                        metas.append((meta, text))
+                        if bad is not None:
+                            rep.oracle_failures.append(bad)
+                            if first_only:
+                                return
+    rep.evaluations += len(metas)
+    outs = run_lean_unit(lines) if with_model else []
+    for (meta, text), model in zip(metas, outs):
+        if text != model:
+            rep.corr_mismatches.append({"case": meta, "impl": text[:700], "model": model[:700]})
+    for meta, text in metas:
+        outc = text.split(":")[1].split(" ")[0] if text.startswith("raise") else "returns"
+        for k in (f"growth:{meta['shape']}:{meta['via']}:{'strict' if meta['strict'] else 'relax'}:{outc}",
+                  f"growth-method:{meta['method']}:{meta['call']}"):
+            rep.histogram[k] = rep.histogram.get(k, 0) + 1
+        if "warn-relax" in text or "IntegerVariableError" in text:
+            rep.nontrivial.add(hash(("growth", meta["shape"], meta["via"], meta["method"], meta["strict"], meta["call"],
+                                     meta["step"], str(meta["recipe"]), meta["start"])))
+
+
+# -- the same dimension with REAL solves: the relaxed optimum is computed by hand (separable objective over a box)
+
+GROW_REAL_NLP = ["auto", "SLSQP", "L-BFGS-B", "TNC", "trust-constr"]
+GROW_REAL_LP = ["auto", "linprog", "highs", "highs-ds", "highs-ipm"]
+
+
+def _clip(a, lb, ub):
+    if lb is not None and a < lb:
+        a = float(lb)
+    if ub is not None and a > ub:
+        a = float(ub)
+    return a
+
+
+def real_observe(P, method, strict):
+    """-> (solution or None, exception or None, [names listed by each relaxation warning])"""
+    import warnings
+
+    listed = []
+    sol = exc = None
+    with warnings.catch_warnings(record=True) as wl:
+        warnings.simplefilter("always")
+        try:
+            sol = P.solve(method=method, strict=strict)
+        except Exception as e:  # noqa: BLE001 - the observation is the exception
+            exc = e
+    for w in wl:
+        m = str(w.message)
+        if m.startswith("Variables [") and base.RELAX_MARK in m:
+            listed.append(m[len("Variables ["):m.index(base.RELAX_MARK)].split(", "))
+    return sol, exc, listed
+
+
+def growth_real_history(c, echo=False):
+    """continuous separable model solved for real, extended by the elements of a non-continuous declaration route (new
+    objective, optionally a slack constraint), then strict (must raise naming them) and non-strict (must warn naming them
+    and return the hand-computed optimum of the continuous relaxation: the target of each variable clipped to its bounds /
+    its lower bound).  -> failure dict or None"""
+    from optyx import Problem, Variable
+
+    lin = c["kind"] == "lin"
+    # solver accuracy, not rounding: the default stopping tolerances of the NLP methods give ~1e-4 on these separable
+    # quadratics; a wrong relaxation (a rounded / unclipped value, a stale bound) is off by >= 0.05
+    tol = 2e-5 if lin else 5e-3
+    base_vars = [Variable("u", lb=0.0, ub=1.0), Variable("v", lb=-2.0, ub=2.0)]
+    targets = {"u": c["targets"][0], "v": c["targets"][1]}
+    written = list(base_vars)
+
+    def declare(P):
+        obj = None
+        for i, x in enumerate(written):
+            term = float(1 + i % 3) * x if lin else (x - targets[x.name]) ** 2
+            obj = term if obj is None else obj + term
+        P.minimize(obj)
+
+    def want_of(x):
+        return float(x.lb) if lin else _clip(targets[x.name], x.lb, x.ub)
+
+    def fail(what, **kw):
+        d = {"what": what, "kind_of_case": "growth-real", "case": c}
+        d.update(kw)
+        return d
+
+    def check_values(sol, tag):
+        if sol is None or sol.status.name != "OPTIMAL":
+            return fail(f"{tag}: a well-conditioned separable model over a box was not solved to OPTIMAL",
+                        status=None if sol is None else sol.status.name)
+        for x in written:
+            have, want = sol.values.get(x.name), want_of(x)
+            if have is None or abs(have - want) > tol * max(1.0, abs(want)):
+                return fail(f"{tag}: {x.name} = {have}, the continuous relaxation has {want} (computed by hand)",
+                            values={k: float(v) for k, v in sol.values.items()})
+        return None
+
+    P = Problem()
+    declare(P)
+    sol, exc, listed = real_observe(P, c["first_method"], c["first_strict"])
+    if echo:
+        print("first solve:", c["first_method"], "strict" if c["first_strict"] else "", "->", exc or sol.values, listed)
+    if exc is not None or listed:
+        return fail("a purely continuous problem triggered the integrality guard", exception=repr(exc), warned=listed)
+    bad = check_values(sol, "before the extension")
+    if bad is not None:
+        return bad
+    h = hd.build_handle(_tup(c["recipe"]))
+    elems = []
+    for x in hd.handle_elements(h):
+        if x.name not in [e.name for e in elems]:
+            elems.append(x)
+    for i, x in enumerate(elems):
+        targets[x.name] = c["elem_targets"][i % len(c["elem_targets"])]
+    written += elems
+    if c["via"] in ("subject_to", "both"):
+        s = None
+        for x in elems:
+            s = x if s is None else s + x
+        P.subject_to(s <= 1000.0)          # slack at the optimum
+    declare(P)
+    D = sorted(x.name for x in written if x.domain != "continuous")
+    for strict in ((True, False) if c["strict_first"] else (False, True)):
+        sol, exc, listed = real_observe(P, c["method"], strict)
+        if echo:
+            print("after the extension:", c["method"], "strict" if strict else "", "->",
+                  repr(exc) if exc is not None else sol.values, listed)
+        if strict:
+            if exc is None:
+                return fail("strict=True returned a solution for a problem with integer/binary variables", expected=D,
+                            values={k: float(v) for k, v in sol.values.items()})
+            if type(exc).__name__ != "IntegerVariableError":
+                return fail(f"strict=True raised {type(exc).__name__} instead of IntegerVariableError", expected=D)
+            if sorted(exc.variable_names or []) != D:
+                return fail("IntegerVariableError does not list exactly the non-continuous variables",
+                            listed=list(exc.variable_names or []), expected=D)
+        else:
+            if exc is not None:
+                return fail(f"strict=False raised {type(exc).__name__}", expected=D)
+            if not listed or any(sorted(l) != D for l in listed):
+                return fail("strict=False returned a solution for a problem with integer/binary variables without a warning "
+                            "naming exactly those variables", warned=listed, expected=D)
+            bad = check_values(sol, "after the extension")
+            if bad is not None:
+                return bad
+    return None
+
+
+def growth_real_cases(rep, rng, recs, thorough, first_only=False):
+    routes = [r for r in growth_routes(recs, 1) if r[0] not in ("diagm",) and "diagm" not in str(r)]
+    n = 0
+    for i in range(90 if thorough else 30):
+        r = routes[i % len(routes)] if i < len(routes) else rng.choice(routes)
+        b = hd.base_of(r)
+        finite_lb = (b[-2] if b[0] == "mat" else b[-1]) == "binary" or (b[4] if b[0] == "mat" else b[-3]) is not None
+        lin = i % 2 == 0 and finite_lb
+        meths = GROW_REAL_LP if lin else GROW_REAL_NLP
+        c = {"recipe": r, "kind": "lin" if lin else "nl", "via": ["minimize", "both", "subject_to"][i % 3],
+             "method": meths[(i // 2) % len(meths)], "first_method": rng.choice(meths), "first_strict": rng.random() < 0.3,
+             "strict_first": rng.random() < 0.5, "targets": [rng.choice([0.25, 0.5, 0.75]), rng.choice([-1.5, 0.5, 1.25])],
+             "elem_targets": [rng.choice([0.3, 0.5, 2.5, 3.75, -1.5, 12.5, 0.75]) for _ in range(4)]}
+        bad = growth_real_history(c)
+        n += 1
+        rep.histogram["growth-real:" + c["kind"] + ":" + c["method"]] = rep.histogram.get("growth-real:" + c["kind"] + ":" + c["method"], 0) + 1
+        rep.nontrivial.add(hash(("growth-real", str(r), c["method"], c["via"])))
+        if bad is not None:
+            rep.oracle_failures.append(bad)
+            if first_only:
+                break
+    rep.evaluations += n
+
+
 def strip_warn(text):
     out, events, state = text.split(" | ")
     depth, cur, evs = 0, "", []
@@ -818,7 +1304,9 @@ def run(ctx) -> core.Report:
                            "compositions; non-trivial = distinct (route, method, strict, kind, call) where the guard acted; "
                            "bounds: every route × 3 domains; bounds-guard: 28 bound intervals (crossed / pinned / open / infinite / "
                            "huge / non-integral) × 4 sites × 3 ways of setting them × methods × strict (every interval "
-                           "meets every method and both modes)")
+                           "meets every method and both modes); growth: 8 ways in which integer / binary variables enter "
+                           "or leave a Problem AFTER its first solve × 15 methods × strict (each cell once; shape, start "
+                           "model, route, call site cycle / are drawn), + real solves against the hand-computed relaxation")
     recs = route_recipes(rng, thorough)
     hd.handle_cases(rep, recs)
     bounds_cases(rep, recs)
@@ -836,6 +1324,8 @@ def run(ctx) -> core.Report:
     sequence_cases(rep, rng, guard_recs, thorough)
     lifetime_cases(rep, rng, thorough)
     bounds_guard_cases(rep, rng, guard_recs, thorough)
+    growth_cases(rep, rng, guard_recs, thorough)
+    growth_real_cases(rep, rng, guard_recs, thorough)
     rep.exhaustive = True
     return rep
 
@@ -867,6 +1357,13 @@ def search(ctx, rep):
     if r2.oracle_failures:
         return r2.oracle_failures[0]
     bounds_guard_cases(r2, rng, recs, False, with_model=False, first_only=True)
+    if r2.oracle_failures:
+        return r2.oracle_failures[0]
+    # the set of non-continuous variables changing after the first solve (stubbed seams, then real solves)
+    growth_cases(r2, rng, recs, False, with_model=False, first_only=True)
+    if r2.oracle_failures:
+        return r2.oracle_failures[0]
+    growth_real_cases(r2, rng, recs, False, first_only=True)
     if r2.oracle_failures:
         return r2.oracle_failures[0]
     # the oracle half only (the model is not consulted by `judge`)
@@ -933,6 +1430,16 @@ def replay(payload) -> bool:
         c = f["case"]
         res = bounds_guard_history(c, upto=c["step"], echo=True)
         bad = res[-1][2] if res else None
+        print(bad)
+        return bad is None
+    if f.get("kind_of_case") == "growth":
+        c = f["case"]
+        res = growth_history(c, upto=c["step"], echo=True)
+        bad = res[-1][2] if res else None
+        print(bad)
+        return bad is None
+    if f.get("kind_of_case") == "growth-real":
+        bad = growth_real_history(f["case"], echo=True)
         print(bad)
         return bad is None
     if f.get("kind_of_case") == "sequence":
